@@ -1738,6 +1738,9 @@ func (db *DB) Dump(w io.Writer, tableNames ...string) error {
 		return err
 	}
 	row := rows[0]
+	if row.Error != "" {
+		return fmt.Errorf("dump: failed to read schema: %s", row.Error)
+	}
 	for _, v := range row.Values {
 		table := v.Parameters[0].GetS()
 
@@ -1757,25 +1760,35 @@ func (db *DB) Dump(w io.Writer, tableNames ...string) error {
 			return err
 		}
 
-		tableIndent := strings.Replace(table, `"`, `""`, -1)
-		r, err := db.queryWithConn(ctx, commReq(fmt.Sprintf(`PRAGMA table_info("%s")`, tableIndent)),
+		// The table name appears inside a double-quoted identifier, and also inside a
+		// single-quoted string literal (the generated INSERT text): escape for both.
+		tableIdent := strings.ReplaceAll(table, `"`, `""`)
+		tableIdentLit := strings.ReplaceAll(tableIdent, `'`, `''`)
+		r, err := db.queryWithConn(ctx, commReq(fmt.Sprintf(`PRAGMA table_info("%s")`, tableIdent)),
 			false, conn)
 		if err != nil {
 			return err
 		}
+		if r[0].Error != "" {
+			return fmt.Errorf("dump: failed to read columns of table %s: %s", table, r[0].Error)
+		}
 		var columnNames []string
 		for _, vv := range r[0].Values {
-			columnNames = append(columnNames, fmt.Sprintf(`'||quote("%s")||'`, vv.Parameters[1].GetS()))
+			colIdent := strings.ReplaceAll(vv.Parameters[1].GetS(), `"`, `""`)
+			columnNames = append(columnNames, fmt.Sprintf(`'||quote("%s")||'`, colIdent))
 		}
 
 		query := fmt.Sprintf(`SELECT 'INSERT INTO "%s" VALUES(%s)' FROM "%s";`,
-			tableIndent,
+			tableIdentLit,
 			strings.Join(columnNames, ","),
-			tableIndent)
+			tableIdent)
 		r, err = db.queryWithConn(ctx, commReq(query), false, conn)
 
 		if err != nil {
 			return err
+		}
+		if r[0].Error != "" {
+			return fmt.Errorf("dump: failed to read rows of table %s: %s", table, r[0].Error)
 		}
 		for _, x := range r[0].Values {
 			y := fmt.Sprintf("%s;\n", x.Parameters[0].GetS())
@@ -1793,6 +1806,9 @@ func (db *DB) Dump(w io.Writer, tableNames ...string) error {
 		return err
 	}
 	row = rows[0]
+	if row.Error != "" {
+		return fmt.Errorf("dump: failed to read indexes, triggers and views: %s", row.Error)
+	}
 	for _, v := range row.Values {
 		// For indexes, triggers, and views, we could add more sophisticated filtering
 		// based on the table they relate to, but for now include all of them
